@@ -2,7 +2,8 @@
 "connections and the SQLite transaction lock are always released".
 
 script  = [session, ...]            (run one after the other in one thread)
-session = {'kind': 'readonly'|'optimistic'|'immediate'|'serializable'|'ddl'|'ddl_api'|'rawconn',
+session = {'kind': 'readonly'|'optimistic'|'immediate'|'serializable'|'ddl'|'ddl_api'|'rawconn'
+                   |'multi'|'multi_rev'|'multi_immediate'   (one db_session writing to TWO Database objects),
            'end': 'commit'|'raise'|'rollback'|'commit_more', 'cold': bool}
 plan    = fault chain for vlib.faultdb.Recorder
 actors  = [script, ...]  + schedule = [int, ...]   (threads under a deterministic hand-off, one runnable at a time)
@@ -11,9 +12,14 @@ import os, sys, shutil, threading
 from vlib import faultdb
 
 KINDS = ('readonly', 'optimistic', 'immediate', 'serializable', 'ddl', 'ddl_api', 'rawconn')
+MULTI_KINDS = ('multi', 'multi_rev', 'multi_immediate')
 ENDS = ('commit', 'raise', 'rollback', 'commit_more')
 SESSION_KW = {'readonly': {}, 'optimistic': {}, 'immediate': {'immediate': True}, 'serializable': {'serializable': True},
-              'ddl': {'ddl': True}, 'rawconn': {}}
+              'ddl': {'ddl': True}, 'rawconn': {}, 'multi': {}, 'multi_rev': {}, 'multi_immediate': {'immediate': True}}
+
+
+def databases_needed(sessions):
+    return 2 if any(s['kind'] in MULTI_KINDS for s in sessions) else 1
 
 
 class BodyError(Exception):
@@ -215,30 +221,41 @@ def make_template(path):
 
 
 class Env(object):
-    def __init__(self, template, path, plan=None):
+    def __init__(self, template, path, plan=None, ndb=1):
         from pony.orm import Database
-        for p in (path, path + '-journal'):
-            if os.path.exists(p):
-                os.remove(p)
-        shutil.copyfile(template, path)
-        self.path = path
         self.scheduler = None
         self.labels = {}
         self.rec = faultdb.Recorder(plan)
-        self.db = Database()
-        self.E = define_entities(self.db)
-        self.db.bind('sqlite', path, create_db=False, factory=faultdb.make_factory(self.rec), timeout=0)
-        self.db.generate_mapping(check_tables=False, create_tables=False)
-        prov = self.db.provider
+        self.dbs, self.Es, self.paths = [], [], []
         self.locks = {}
-        for name in ('pre_transaction_lock', 'transaction_lock'):
-            if hasattr(prov, name):                  # observation only: same protocol as threading.Lock
-                self.locks[name] = ILock(name, self)
-                setattr(prov, name, self.locks[name])
-        tl = self.locks.get('transaction_lock')
-        self.rec.probe = (lambda: tl.locked()) if tl is not None else None
-        self.pooled = {}          # thread ident -> connection object left in that thread's pool when the thread ended
+        for i in range(ndb):
+            p = path if i == 0 else '%s.%d' % (path, i + 1)
+            for q in (p, p + '-journal'):
+                if os.path.exists(q):
+                    os.remove(q)
+            shutil.copyfile(template, p)
+            db = Database()
+            E = define_entities(db)
+            db.bind('sqlite', p, create_db=False, factory=faultdb.make_factory(self.rec, tag=i), timeout=0)
+            db.generate_mapping(check_tables=False, create_tables=False)
+            prov = db.provider
+            for name in ('pre_transaction_lock', 'transaction_lock'):
+                if hasattr(prov, name):                  # observation only: same protocol as threading.Lock
+                    lname = name if i == 0 else 'db%d.%s' % (i + 1, name)
+                    self.locks[lname] = ILock(lname, self)
+                    setattr(prov, name, self.locks[lname])
+            self.dbs.append(db)
+            self.Es.append(E)
+            self.paths.append(p)
+        self.db, self.E, self.path = self.dbs[0], self.Es[0], self.paths[0]
+        tls = [l for n, l in self.locks.items() if n.endswith('transaction_lock') and 'pre_' not in n]
+        self.rec.probe = lambda: any(l.locked() for l in tls)
+        self.history = []         # (label, outcome) of every session that ended, in order
         self.rec.start()
+
+    def earlier(self):
+        bad = ['%s -> %s' % (lab, out) for lab, out in self.history if out != 'ok']
+        return ' [sessions that ended with an error before: %s]' % ('; '.join(bad[-3:]) if bad else 'none')
 
     def label(self):
         return self.labels.get(threading.get_ident(), 'harness')
@@ -264,12 +281,17 @@ class Env(object):
         except Exception:
             pass
 
+    def disconnect_all(self):
+        for db in self.dbs:
+            try:
+                if db.provider.pool.con is not None:
+                    db.disconnect()
+            except BaseException:
+                pass
+
     def close(self):
         self.cleanup_thread()
-        try:
-            self.db.disconnect()
-        except BaseException:
-            pass
+        self.disconnect_all()
         for r in self.rec.conns:
             try:
                 import sqlite3
@@ -287,7 +309,8 @@ def run_session(env, sess, serial, yield_=None):
     kind, end = sess['kind'], sess.get('end', 'commit')
     try:
         if sess.get('cold'):
-            db.disconnect()      # outside any session: the next session has to connect
+            for d in env.dbs:
+                d.disconnect()   # outside any session: the next session has to connect
         if kind == 'ddl_api':
             db.drop_table('B', if_exists=True, with_all_data=True)
             y()
@@ -309,6 +332,24 @@ def run_session(env, sess, serial, yield_=None):
                 if end == 'commit_more':
                     commit()
                     y()
+                    objs[-1].v += 1
+                    y()
+            elif kind in MULTI_KINDS:
+                order = [1, 0] if kind == 'multi_rev' else [0, 1]
+                first, second = env.Es[order[0]]['A'], env.Es[order[1]]['A']
+                objs = select(a for a in first).order_by(first.id)[:]
+                y()
+                objs[0].v += 1
+                first(v=10 + serial)
+                y()
+                second(v=30 + serial)
+                y()
+                flush()
+                y()
+                if end == 'commit_more':
+                    commit()
+                    y()
+                    second(v=50 + serial)
                     objs[-1].v += 1
                     y()
             elif kind == 'ddl':
@@ -349,8 +390,9 @@ def run_session(env, sess, serial, yield_=None):
 def followup(env, vid):
     """a plain write session that must work on a healthy database"""
     from pony.orm import db_session
-    with db_session:
-        env.E['A'](v=vid)
+    with db_session(optimistic=True):       # a session object of its own, like a decorated function of an application
+        for E in env.Es:
+            E['A'](v=vid)
 
 
 # ---------------------------------------------------------------------------------------------- oracle
@@ -365,7 +407,7 @@ def check_thread_state(env, where, final=False):
                     % (where, name, lock.holder_label))
         if env.scheduler is None and lock.locked():
             return '%s: provider.%s is still held (taken in %s) although no session is active' % (where, name, lock.holder_label)
-    pool_con = env.db.provider.pool.con           # thread-local: this thread's pooled connection
+    pool_cons = [db.provider.pool.con for db in env.dbs]   # thread-local: this thread's pooled connections
     tid = env.rec.tid()
     for r in env.rec.conns:
         if r.used_after_close:
@@ -377,12 +419,21 @@ def check_thread_state(env, where, final=False):
             return '%s: connection #%d was closed %d times; calls: %s' % (where, r.serial, r.close_calls, ' '.join(env.rec.brief()[-14:]))
         if r.never_handed_out or r.close_refused:
             continue
-        if r.obj is pool_con:
+        if any(r.obj is pc for pc in pool_cons):
             if r.closed or not r.is_open():
                 return "%s: the pool's current connection #%d is closed" % (where, r.serial)
         elif not r.closed:
             return ('%s: connection #%d is neither the pool\'s current connection nor closed (leaked open); calls: %s'
                     % (where, r.serial, ' '.join(env.rec.brief()[-14:])))
+    return None
+
+
+def internal_failure(env, exc, label):
+    """a session that dies of an AssertionError inside Pony although no fault was injected into IT (the plan is exhausted
+    or the error is not an injected one) failed because of what an earlier session left behind"""
+    if isinstance(exc, AssertionError) and not faultdb.is_injected(exc) and any(out != 'ok' for _, out in env.history):
+        return ('%s failed with an internal AssertionError: %s;%s calls: %s'
+                % (label, str(exc)[:160], env.earlier(), ' '.join(env.rec.brief()[-14:])))
     return None
 
 
@@ -426,8 +477,8 @@ def followups(env, stats=None):
     except WouldBlock as e:
         return 'a following write session in the same thread would block for ever: %s' % e
     except Exception as e:
-        return ('a following write session in the same thread failed with %s: %s; calls: %s'
-                % (type(e).__name__, str(e)[:200], ' '.join(env.rec.brief()[-14:])))
+        return ('a following write session in the same thread failed with %s: %s;%s calls: %s'
+                % (type(e).__name__, str(e)[:200], env.earlier(), ' '.join(env.rec.brief()[-14:])))
     msg = check_thread_state(env, 'after the follow-up session in the same thread')
     if msg:
         return msg
@@ -439,24 +490,21 @@ def followups(env, stats=None):
             return check_thread_state(env, 'after the follow-up session in another thread')
         finally:
             env.cleanup_thread()
-            try:
-                env.db.disconnect()
-            except Exception:
-                pass
+            env.disconnect_all()
     kind, res = run_in_thread(other, 'followup')
     if kind == 'hang':
         return 'inconclusive: the follow-up thread did not finish'
     if kind == 'error':
         if isinstance(res, WouldBlock):
             return 'a following write session in another thread would block for ever: %s' % res
-        return ('a following write session in another thread failed with %s: %s; calls: %s'
-                % (type(res).__name__, str(res)[:200], ' '.join(env.rec.brief()[-14:])))
+        return ('a following write session in another thread failed with %s: %s;%s calls: %s'
+                % (type(res).__name__, str(res)[:200], env.earlier(), ' '.join(env.rec.brief()[-14:])))
     return res
 
 
 def run_script_case(template, path, script, plan, info=None):
     """single-thread case: returns violation message / 'inconclusive: ...' / None; info receives the call log facts"""
-    env = Env(template, path, plan)
+    env = Env(template, path, plan, databases_needed(script))
     try:
         for si, sess in enumerate(script):
             env.set_label('session %d (%s, end=%s%s)' % (si, sess['kind'], sess.get('end', 'commit'), ', cold' if sess.get('cold') else ''))
@@ -464,6 +512,10 @@ def run_script_case(template, path, script, plan, info=None):
                 exc = run_session(env, sess, si)
             except WouldBlock as e:
                 return 'session %d would block for ever: %s' % (si, e)
+            msg = internal_failure(env, exc, 'session %d (%s)' % (si, sess['kind']))
+            env.history.append((env.label(), 'ok' if exc is None else type(exc).__name__))
+            if msg:
+                return msg
             if info is not None:
                 info.setdefault('outcomes', []).append(None if exc is None else type(exc).__name__)
                 if exc is not None and not faultdb.is_injected(exc) and not isinstance(exc, RuntimeError):
@@ -483,7 +535,7 @@ def run_script_case(template, path, script, plan, info=None):
 
 def run_actors_case(template, path, actors, schedule, plan, info=None):
     """2-3 threads under the deterministic hand-off; returns violation message / 'inconclusive: ...' / None"""
-    env = Env(template, path, plan)
+    env = Env(template, path, plan, databases_needed([s for a in actors for s in a]))
     try:
         sched = Scheduler(len(actors), schedule)
         env.scheduler = sched
@@ -500,6 +552,11 @@ def run_actors_case(template, path, actors, schedule, plan, info=None):
                     except WouldBlock as e:
                         results[i] = '%s would block for ever: %s' % (lab, e)
                         return
+                    msg = internal_failure(env, exc, lab)
+                    env.history.append((lab, 'ok' if exc is None else type(exc).__name__))
+                    if msg:
+                        results[i] = msg
+                        return
                     msg = check_thread_state(env, 'after %s which ended with %s'
                                              % (lab, 'no error' if exc is None else '%s: %s' % (type(exc).__name__, str(exc)[:80])))
                     if msg:
@@ -515,12 +572,7 @@ def run_actors_case(template, path, actors, schedule, plan, info=None):
             finally:
                 try:
                     env.cleanup_thread()
-                    con = env.db.provider.pool.con
-                    if con is not None:
-                        try:
-                            env.db.disconnect()  # the thread goes away: give its pooled connection back properly
-                        except BaseException:
-                            pass
+                    env.disconnect_all()         # the thread goes away: give its pooled connections back properly
                 finally:
                     sched.finish()
         threads = [threading.Thread(target=actor, args=(i,), name='actor%d' % i) for i in range(len(actors))]
